@@ -166,6 +166,28 @@ def csibling(chain_id, level, tag):
 
 
 @m.memento_function(version="c1")
+def unstorable(chain_id):
+    """A partition one of whose values is a partition with a merge parent that was never stored: storing it fails
+    part-way (the caller still gets the partition)."""
+    REC.hit("unstorable", chain_id)
+    from twosigma.memento.partition import InMemoryPartition
+
+    inner = InMemoryPartition({"i": 1})
+    inner._merge_parent = InMemoryPartition({"never": "stored"})
+    return InMemoryPartition({"alpha": 1, "beta": inner, "gamma": 3, "shared": "parent's"})
+
+
+@m.memento_function(version="c1")
+def child_of_unstorable(chain_id):
+    REC.hit("child_of_unstorable", chain_id)
+    from twosigma.memento.partition import InMemoryPartition
+
+    part = InMemoryPartition({"own": 7, "shared": "child's"})
+    part._merge_parent = unstorable(chain_id)
+    return part
+
+
+@m.memento_function(version="c1")
 def rebased(chain_id, level, under):
     """Hands on the partition chain(chain_id, level) returns after declaring chain(chain_id, under) as its merge parent."""
     REC.hit("rebased", chain_id, level, under)
